@@ -141,6 +141,12 @@ def entry_points(g):
                         ("dft_iterative", depthfirst.dft_iterative, False), ("idft_iterative", depthfirst.idft_iterative, True)):
         yield nm, {"ff_via": f_via, "ff_result": f_res}, (
             lambda c, fn=fn: names(list(fn(uni, v0, ff_via=c["ff_via"], ff_result=c["ff_result"], **kw))))
+    # the life cycle of a generator traversal: created and dropped without a single next(); started and closed;
+    # abandoned half way.  However the caller lets go of it, the graph is as before.
+    for nm, fn in (("ibft", breadthfirst.ibft), ("idft_recursive", depthfirst.idft_recursive), ("idft_iterative", depthfirst.idft_iterative)):
+        yield nm + ":created_never_started", {}, lambda c, fn=fn: _lifecycle(fn(uni, v0, **kw), 0, False)
+        yield nm + ":started_then_closed", {}, lambda c, fn=fn: _lifecycle(fn(uni, v0, **kw), 1, True)
+        yield nm + ":abandoned_half_way", {}, lambda c, fn=fn: _lifecycle(fn(uni, v0, **kw), 2, False)
     for nm, fn in (("bfs", breadthfirst.bfs), ("dfs_recursive", depthfirst.dfs_recursive), ("dfs_iterative", depthfirst.dfs_iterative)):
         yield nm, {}, lambda c, fn=fn: g.name(_search(fn, uni, v0))
     yield "basic_render", {"rfunc": f_render, "sort": f_sort}, lambda c: _render(uni, c)
@@ -148,6 +154,20 @@ def entry_points(g):
     yield "make_pyvis_net", {"rvfunc": f_render, "refunc": f_redge}, lambda c: net_view(egpyvis.make_pyvis_net(uni, rvfunc=c["rvfunc"], refunc=c["refunc"]))
     yield "pyvis_render_customizable", {"rvfunc": f_render, "refunc": f_redge}, lambda c: net_view(egpyvis.pyvis_render_customizable(uni, rvfunc=c["rvfunc"], refunc=c["refunc"]))
     yield "nrpickler.dumps", {}, lambda c: len(nrpickler.dumps(uni)) > 0
+
+
+def _lifecycle(gen, steps, close):
+    n = 0
+    for _ in range(steps):
+        try:
+            next(gen)
+            n += 1
+        except StopIteration:
+            break
+    if close:
+        gen.close()
+    del gen  # reference counting finalises it here (no cycle holds it)
+    return n
 
 
 def _search(fn, uni, v0):
